@@ -141,27 +141,25 @@ theorem indices_loop : indices = (List.range 448).map (fun i => 447 - i) := by d
 /-! ### layout, recorded facts, well-formedness of the regenerated data -/
 
 theorem ladderInit_facts :
-    G.ladderInit.inputs = ["u"]
-    ∧ G.ladderInit.outputs = ["x1", "x2", "z2", "x3", "z3", "swap"] ∧ G.ladderInit.outIds = [1, 2, 3, 4, 5, 6]
+    G.ladderInit.inputs = ["l0"]
+    ∧ G.ladderInit.outputs = ["l1", "l2", "l3", "l4", "l5", "l6"] ∧ G.ladderInit.outIds = [1, 2, 3, 4, 5, 6]
     ∧ G.ladderInit.intVars = [6]
     ∧ G.ladderInit.guards = [] ∧ G.ladderInit.hazards = [] ∧ G.ladderInit.wf = true := by
   ptops_decide "C14StepOps.ladderInit_facts"
 
 /-- the loop header and the text of the opaque bit extraction (`Model.X448.indices`, `bitAt`) -/
 theorem ladderStep_facts :
-    G.ladderStep.inputs = ["x1", "x2", "z2", "x3", "z3", "swap", "kt"]
-    ∧ G.ladderStep.outputs = ["x2", "z2", "x3", "z3", "swap"] ∧ G.ladderStep.outIds = [1, 2, 3, 4, 5]
-    ∧ G.ladderStep.facts = [("loop.var", "t"),
-        ("loop.start", "447"), ("loop.cond", "(t >= 0)"), ("loop.post", "t--"),
-        ("opaque kt", "(1 & int((k[(t / 8)] >> (t % 8))))")]
+    G.ladderStep.inputs = ["l1", "l2", "l3", "l4", "l5", "l6", "o0"]
+    ∧ G.ladderStep.outputs = ["l2", "l3", "l4", "l5", "l6"] ∧ G.ladderStep.outIds = [1, 2, 3, 4, 5]
+    ∧ G.ladderStep.facts = [("loop.start", "447"), ("loop.cond", "(u0 >= 0)"), ("loop.post", "--"), ("opaque o0", "(1 & int((u0[(u1 / 8)] >> (u1 % 8))))")]
     ∧ G.ladderStep.guards = [] ∧ G.ladderStep.hazards = [] ∧ G.ladderStep.wf = true := by
   ptops_decide "C14StepOps.ladderStep_facts"
 
 /-- the range ends where the low-order test starts -/
 theorem ladderFinish_facts :
-    G.ladderFinish.inputs = ["x2", "z2", "x3", "z3", "swap"]
-    ∧ G.ladderFinish.outputs = ["ret"] ∧ G.ladderFinish.outIds = [5]
-    ∧ G.ladderFinish.facts = [("followed-by", "zero.Equal(&ret) == 1")]
+    G.ladderFinish.inputs = ["l2", "l3", "l4", "l5", "l6"]
+    ∧ G.ladderFinish.outputs = ["l8"] ∧ G.ladderFinish.outIds = [5]
+    ∧ G.ladderFinish.facts = [("followed-by", "(u0.Equal((&u1)) == 1)")]
     ∧ G.ladderFinish.guards = [] ∧ G.ladderFinish.hazards = [] ∧ G.ladderFinish.wf = true := by
   ptops_decide "C14StepOps.ladderFinish_facts"
 
